@@ -1,6 +1,6 @@
     requires old(self).wf(),
     ensures
-        final(self).wf(), // [C09:wf] [C02:wf-dirty-flag-makes-persist-flush]
+        final(self).wf(), // [C09:wf] [C02:wf-dirty-flag-makes-persist-flush] [C13:wf-dirty-flag-makes-persist-flush]
         final(self).appended(old(self)), // [C02:append-only] [C03:append-only]
         r is Ok ==> final(self).file.logical() == old(self).file.logical()
             + enc_batch(seqno, seq![OpV::Clear { keyspace_id }], old(self).compression, old(self).compression_threshold), // [C03:batch-framing] [C04:clear-journaled]
